@@ -234,7 +234,7 @@ def c17_2(R):
                 R.fail([ni.name, "initial-state", classify(ni, s.rv.ops[j])], "an accepted connection does not start in SynReceived", where=s.where(), instance="incoming-starts-in-SynReceived")
 
 
-@rule("C17.3", ["C17"], ["E3", "E4"], "our FIN carries the sequence number following the last data segment",
+@rule("C17.3", ["C17", "C03"], ["E3", "E4"], "our FIN carries the sequence number following the last data segment",
       "Every fresh our_fin (the argument of transition_to_fin_wait_1 and the (Established, ST_FIN) arm) is a copy of self.seq_nr, and seq_nr += 1 follows on that path; other our_fin values are copied "
       "from the previous state; maybe_send_fin sends seq_nr = that our_fin and just_before_death uses self.seq_nr.")
 def c17_3(R):
